@@ -950,6 +950,48 @@ impl Scenario for C13 {
         }
         out
     }
+    /// Thorough tier: about 100 reveal inputs (skewed keys, solved lengths)
+    /// replayed under Miri, the only memory monitor reveal() can be given.
+    fn extra(tier: Tier, seed: u64, obs: &mut Obs) -> Vec<(serde_json::Value, Failure)> {
+        if tier != Tier::Thorough {
+            return Vec::new();
+        }
+        let mut rng = Rng::new(crate::rng::run_seed(seed, "C13-miri-sample", 0));
+        let mut lines = Vec::new();
+        for i in 0..100usize {
+            let blocks = *rng.pick(&[1usize, 1, 2, 3]);
+            let n = blocks * 16;
+            let sl = rng.urange(0, 12);
+            let secret = rng.bytes(sl);
+            let rv = rng.bytes(4);
+            let attr = *rng.pick(&ALL_ATTRS);
+            let mut value = rng.bytes(n);
+            if i % 2 == 0 {
+                let want: u16 = *rng.pick(&[0u16, 5, 6, 7, (n - 2) as u16, n as u16, (n + 3) as u16, (n + 4) as u16, (n + 5) as u16, 1023, 1024, 65535]);
+                let ks = first_keystream(attr, &secret, &rv);
+                let w = want.to_be_bytes();
+                value[0] = w[0] ^ ks[0];
+                value[1] = w[1] ^ ks[1];
+            }
+            lines.push(format!("R {} {} {} {}", attr, to_hex(&value), if secret.is_empty() { "00".to_string() } else { to_hex(&secret) }, to_hex(&rv)));
+        }
+        match crate::props::c19_side::run_miri_sample("C13", &lines) {
+            Ok(n) => {
+                obs.add("miri-sample-inputs-replayed", n);
+                obs.evaluations += n;
+                Vec::new()
+            }
+            Err((true, d)) => vec![(
+                serde_json::Value::Null,
+                Failure::new("C13", "miri-memory-monitor", "miri-sample", d),
+            )],
+            Err((false, why)) => {
+                obs.count("note:miri-unavailable");
+                println!("NOTE C13: Miri sample skipped ({why})");
+                Vec::new()
+            }
+        }
+    }
     fn meta() -> Meta {
         Meta {
             rule: "two parties with possibly different keys. Each run: 8 valid hidden AVPs from the hider node (C11's generator), each hit by 0-2 faults between the parties (secret differs in one bit / is a prefix / is random; random vector differs; ciphertext bit flip biased to the length subfield; ciphertext truncated; ciphertext extended by 1/15/16/17/32 octets; announced attribute type swapped, incl. unassigned); 3 raw hidden values of 0,1,15,16,17,32,48,1008,1017,1024,4096 PRNG octets; 4 directed values whose first block is solved (XOR with the known key stream) so that the decrypted length is exactly 0,5,6,7,|v|-2,|v|-1,|v|,|v|+3,|v|+4,|v|+5,1023,1024,65535. Dev and release profile, process-isolated. Oracle: no unwinding panic, no abort; Ok(x) only with type(x) = announced type; empty and non-multiple-of-16 values rejected; a declared length fitting under neither length convention rejected; result equals the reference reveal (where the properties specify it). distinct_nontrivial = distinct (type, value, secret, rv) tuples.",
